@@ -3,7 +3,7 @@ from pyvc.spec import assumed, contract, fields, spec, implies, forall, exists  
 from contracts.assumed_docutils import GP_COND, GP_ENS, GP_MOD, GP_TEXT
 from contracts.render import KEEP, NEW, REQ, RMOD, M  # noqa: F401  (generic render contract pieces)
 
-fields("docutils.nodes:Element", id_link="bool")
+fields("docutils.nodes:Element", id_link="bool", refuri="str | None")
 fields("myst_parser.config.main:MdParserConfig", commonmark_only="bool", gfm_only="bool", all_links_external="bool",
        url_schemes="dict[str, UrlScheme | None]")
 fields("builtins:UrlScheme", _opaque="int")
@@ -26,10 +26,23 @@ contract(
     ensures=["implies(key == 'id_link', self.id_link)", "implies(key != 'id_link', self.id_link == old(self.id_link))"],
     returns="None", modifies=["self.id_link"], trusted=True,
 )
+@spec(abstract=True, sig=(["str"], "str"))
+def NormLinkText(s):
+    """markdown-it's normalizeLinkText: undoes the percent-encoding markdown-it applied to the destination."""
+    from markdown_it import MarkdownIt
+
+    return MarkdownIt().normalizeLinkText(s)
+
+
 contract(
     "ext:MarkdownIt.normalizeLinkText",
     types={"__params__": ["self", "link"], "self": "MarkdownIt", "link": "str"},
-    requires=[], ensures=[], returns="str", modifies=[], pure=True, trusted=True,
+    requires=[], ensures=["result == NormLinkText(link)"], returns="str", modifies=[], pure=True, trusted=True,
+)
+contract(
+    "ext:Element.__setitem__[refuri]",
+    types={"__params__": ["self", "key", "value"], "self": "Element", "key": "str", "value": "str"},
+    requires=[], ensures=["self.refuri == value"], returns="None", modifies=["self.refuri"], trusted=True,
 )
 contract(
     "ext:SyntaxTreeNode.attrGet",
@@ -52,7 +65,7 @@ contract(
     f"{M}:DocutilsRenderer.copy_attributes",
     requires=[],
     ensures=["node.parent == old(node.parent)", "node.kind == old(node.kind)", "node.line == old(node.line)",
-             "node.id_link == old(node.id_link)",
+             "node.id_link == old(node.id_link)", "node.refuri == old(node.refuri)",
              "len(node.children) >= len(old(node.children))",
              "node.children[: len(old(node.children))] == old(node.children)"],
     types={"token": "SyntaxTreeNode", "node": "Element", "keys": "tuple[str, ...]", "converters": "None"},
@@ -65,7 +78,7 @@ for _m in ("render_link_url", "render_link_inventory", "render_link_path", "rend
         f"{M}:DocutilsRenderer.{_m}",
         requires=[], ensures=GP_ENS + ["self.g_link == %r" % _m],
         types={"token": "SyntaxTreeNode", "conversion": "UrlScheme | None"},
-        raises={"Exception": []}, modifies=GP_MOD + ["self.g_rc_node", "self.g_link", "Element.id_link"], trusted=True,
+        raises={"Exception": []}, modifies=GP_MOD + ["self.g_rc_node", "self.g_link", "Element.id_link", "Element.refuri"], trusted=True,
     )
 fields(f"{M}:DocutilsRenderer", g_link="str")  # ghost: which of the other link renderers ran last
 assumed("render_link_url / _inventory / _path / _project / _unknown", GP_TEXT, "myst_parser")
@@ -81,10 +94,13 @@ contract(
     # exactly ONE reference node, marked as a local-target link, is attached at the link's own line - never dropped, never
     # duplicated - and the link text (the token's children) is rendered inside it unless the link is an autolink
     ensures=KEEP + ANCHOR + [f"implies(token.info != 'auto', self.g_rc_node == {NEW})",
-                             "self.g_link == old(self.g_link)"],
+                             "self.g_link == old(self.g_link)",
+                             # the recorded target is the destination as written in the source (percent-encoding undone),
+                             # whoever the caller is (render_link, render_link_project)
+                             f"{NEW}.refuri == NormLinkText(target)"],
     types={"token": "SyntaxTreeNode"},
     raises={"Exception": []},
-    modifies=RMOD + ["Element.id_link"],
+    modifies=RMOD + ["Element.id_link", "Element.refuri"],
     properties=["C09", "C02"],
 )
 
@@ -97,12 +113,13 @@ contract(
     requires=REQ + [GP_COND, "self.g_link == ''"],
     ensures=KEEP + [
         # a '#...' destination in MyST mode (and no `external` class) always goes to the local-anchor renderer
-        f"implies({IS_ANCHOR}, " + " and ".join(f"({c})" for c in ANCHOR) + " and self.g_link == '')",
+        f"implies({IS_ANCHOR}, " + " and ".join(f"({c})" for c in ANCHOR) + " and self.g_link == ''"
+        f" and {NEW}.refuri == NormLinkText(token.attrs['href']))",
         # and nothing else does, except a `project:#...` link (render_link_project forwards those itself)
         f"implies(not ({IS_ANCHOR}), self.g_link != '')",
     ],
     types={"token": "SyntaxTreeNode"},
     raises={"Exception": []},
-    modifies=RMOD + ["Element.id_link", "self.g_link"],
+    modifies=RMOD + ["Element.id_link", "Element.refuri", "self.g_link"],
     properties=["C09"],
 )
